@@ -63,6 +63,36 @@ def cases() -> list[dict]:
     return out
 
 
+def exact_fit_histories(tier: str) -> list[dict]:
+    """All 2-statement histories (first statement up to key renaming) over 5 keys for a 3-slot table that
+    exactly fits one statement, for the prefix table (IRIs) and the datatype table (generalized literals);
+    a third statement re-uses the first one's keys so that a diverged table state shows."""
+    import itertools
+
+    from ..values import Atom, sstr
+
+    keys = ["KA", "KB", "KC", "KD", "KE"]
+    firsts = [("KA", "KA", "KA"), ("KA", "KA", "KB"), ("KA", "KB", "KA"), ("KA", "KB", "KB"), ("KA", "KB", "KC")]
+    out = []
+    n = 0
+    for table in ("prefix", "datatype"):
+        for first in firsts:
+            for second in itertools.product(keys, repeat=3):
+                n += 1
+                if tier == "quick" and table == "datatype" and n % 3:
+                    continue
+
+                def term(key: str, uniq: str) -> tuple:
+                    if table == "prefix":
+                        return ("iri", sstr(Atom(key + ".scheme", nosep=True), "/", Atom(key + ".path", nosep=True), "#", Atom(uniq + ".local", nosep=True)))
+                    return ("lit", sstr(Atom(uniq + ".lex")), None, sstr(Atom(key + ".dt")))
+
+                stmts = [tuple(term(k_, f"s{si}t{ti}") for ti, k_ in enumerate(st)) for si, st in enumerate((first, second, first))]
+                preset = (9, 3, 8) if table == "prefix" else (8, 8, 3)
+                out.append(dict(table=f"{table} exact-fit history {''.join(x[1] for x in first)}->{''.join(x[1] for x in second)}", physical=1, size=3, preset=preset, stmts=stmts, integ="generic", control=True, history=True))
+    return out
+
+
 def run(prog, case: dict) -> dict:
     def scenario(it: Interp) -> dict:
         k = K.Kit(it)
@@ -93,11 +123,18 @@ def check(chk: Check) -> None:
     chk.rule("C18.REF.control", "tables exactly as large as one statement needs: serialisation succeeds and decodes to the input", floor=10)
     chk.trusted += ["jstat.refdec (specification decoder)"]
     chk.undecided += ["which concrete statements overflow; sizes beyond the enumerated ones"]
-    for res in pmap(run, cases(), min_parallel=8):
+    chk.rule("C18.REF.exact-fit-histories", "3-slot prefix/datatype table, every 2-statement history over 5 keys (first statement up to renaming) + a third statement: output decodes to the input", floor=400)
+    for res in pmap(run, cases() + exact_fit_histories(chk.tier), min_parallel=8):
         c = res["case"]
         inst = f"{c['integ']} table={c['table']} size={c['size']} physical={c['physical']}"
         for p in res["paths"]:
             chk.paths += 1
+            if c.get("history"):
+                if p["outcome"] == "written" and p["equal"]:
+                    chk.ok("C18.REF.exact-fit-histories", c["table"], p)
+                else:
+                    chk.fail("C18.REF.exact-fit-histories", c["table"], f"pyjelly.serialize.lookup:exact-fit-{c['table'].split()[0]}", f"{c['table']}: a table that holds exactly what one statement needs, yet: {p.get('diff') or p}")
+                continue
             if c.get("control"):
                 if p["outcome"] == "written" and p["equal"]:
                     chk.ok("C18.REF.control", inst, p)
